@@ -10,7 +10,7 @@ RULE = ('generated spied charts with side actions (posts, defer, recall, scribbl
         'START, queue reflection last) and spy() must equal the concatenation of the step logs cut to the 500-line ring (long runs cross '
         'it). distinct_nontrivial = distinct (host, lines in the run, number of marker lines, ring crossed) tuples')
 CASES = {'quick': 2500, 'thorough': 150000}
-BUDGET = {'quick': 40, 'thorough': 900}
+BUDGET = {'quick': 40, 'thorough': 300}
 REQUIRE = {'spy_step_logs': 20000, 'full_spy_ring_crossed': 20, 'instr_host_runs': 200}
 ASSUME = ['steps produce fewer than 250 spy lines (beyond the per-step ring the statement is silent; such steps are counted and skipped)',
           'posts from other threads while a step runs are not part of this property (C04)']
